@@ -69,6 +69,16 @@ Proof.
 Qed.
 Print Assumptions C49_stop_phase_never_blocks.
 
+(* the socket ledger: EVERY udp listener Main opened (one per configured routine) is closed once the state is Stopped and
+   open until then - including the ones that never got a reader because activate clamped the reader routines to what
+   the udp backend (SupportsMultipleReaders) and the overlay device (queues really opened) allow *)
+Theorem C49_all_listeners_closed : forall c ops, let s := run (ready c) ops in
+  (l_state s = SStopped -> udp_open s = 0%nat) /\
+  (l_state s = SReady \/ l_state s = SStarted -> udp_open s = k_configured c) /\
+  (k_routines c <= k_configured c)%nat /\ (k_routines c <= k_queues c)%nat.
+Proof. exact listeners_ledger. Qed.
+Print Assumptions C49_all_listeners_closed.
+
 Example C49_nonvacuous :
   released (run (ready ex_cfg) [OStart true; ORebind; OStop]) = true /\
   released (run (ready ex_cfg) [OStart true; ORebind]) = false /\
